@@ -174,6 +174,49 @@ theorem xrun_base {p : Pool 𝕂} (h : History 𝕂 ℝ) :
     | error e => rfl
     | ok r => exact ih
 
+/-! ## A.3 for `compress`, contracts: the hypotheses `nrm ≠ 0`, `scale ≠ 0` of `boundary_kept_compress_partial` discharged -/
+
+/-- **A.3 (compress, full)** `boundary_kept_compress`: for a NON-ZERO admissible state, `0 ≤ tol < 1` and the kernel contracts
+of C13, `compress` in either mode keeps the leading and trailing bond charges `qD[0]`, `qD[L]`.  (`nrm ≠ 0` because
+`nrm² = Σ |ψ_s|²`, C13.compress_returns_norm; `scale ≠ 0` because `(1 - tol)^L ≤ scale²`, C13.compress_scale_bounds.) -/
+theorem boundary_kept_compress [HasConj 𝕂] {dqr : Mat 𝕂 → Mat 𝕂 × Mat 𝕂} {ks : MPS.SvdKernels 𝕂 ℝ} {dabs : 𝕂 → ℝ}
+    {divR : 𝕂 → ℝ → 𝕂} (hq : C01.QRKernel dqr) (hs : Compress.SvdKernel ks) (ha : Compress.AbsContract dabs divR)
+    (hre : RealLike.re (0 : 𝕂) = (0 : ℝ)) (habs : dabs 0 = 0)
+    {ψ ψ' : MPS 𝕂} {tol nrm sc : ℝ} {left : Bool} (hadm : Admissible ψ) (h0 : 0 ≤ tol) (h1 : tol < 1)
+    (h : MPS.compress dqr ks dabs divR ψ tol left = .ok (ψ', nrm, sc))
+    {σ : List Nat} (hσ : σ ∈ Env.digitsU ψ.qd.length ψ.A.length) (hne : ψ.amp σ ≠ 0) :
+    ψ'.qD.head? = ψ.qD.head? ∧ ψ'.qD.getLast? = ψ.qD.getLast? := by
+  have hn : nrm ≠ 0 := by
+    intro hz
+    obtain ⟨e, -⟩ := C13.compress_returns_norm hq hs ha hadm h0 h1 h
+    rw [hz] at e
+    have hsum : ∑ s ∈ Env.digitsU ψ.qd.length ψ.A.length, ‖ψ.amp s‖ ^ 2 = 0 := by
+      rw [← e]; norm_num
+    have := (Finset.sum_eq_zero_iff_of_nonneg (fun s _ => by positivity)).1 hsum σ hσ
+    rw [pow_eq_zero_iff (by norm_num), norm_eq_zero] at this
+    exact hne this
+  have hsc : sc ≠ 0 := by
+    intro hz
+    obtain ⟨-, -, s2, -, -⟩ := C13.compress_scale_bounds hq hs ha hadm h0 h1 h
+    rw [hz] at s2
+    have : 0 < (1 - tol) ^ ψ.A.length := pow_pos (by linarith) _
+    simp at s2
+    linarith
+  exact boundary_kept_compress_partial hq.contract.shape (fun B => hs.svd.shape B) hre habs h hn hsc
+
+/-- non-vacuity of `boundary_kept_compress` including the run: `exψ = |01⟩ + |10⟩` over `ℝ`, `tol = 1/4`, both modes -/
+example (left : Bool) : ∃ (ψ' : MPS ℝ) (nrm sc : ℝ),
+    MPS.compress QrExists.fullQR (Compress.exKernels ℝ) (fun z : ℝ => ‖z‖) (fun z r => z / (r : ℝ)) exψ (1 / 4) left =
+      .ok (ψ', nrm, sc) ∧ ψ'.qD.head? = exψ.qD.head? ∧ ψ'.qD.getLast? = exψ.qD.getLast? := by
+  obtain ⟨ψ', nrm, sc, hrun⟩ := C13.compress_ok (dabs := fun z : ℝ => ‖z‖) (divR := fun z r => z / (r : ℝ))
+    C01.fullQR_kernel (C13.exKernels_kernel (𝕜 := ℝ)) exψ_adm (by norm_num : (0 : ℝ) ≤ 1 / 4) (by norm_num) left
+  have hne : ∑ s ∈ Env.digitsU exψ.qd.length exψ.A.length, ‖exψ.amp s‖ ^ 2 ≠ 0 := by
+    rw [exψ_normsq]; norm_num
+  obtain ⟨σ, hσ, h0⟩ := Finset.exists_ne_zero_of_sum_ne_zero hne
+  have hamp : exψ.amp σ ≠ 0 := fun h => h0 (by rw [h]; simp)
+  exact ⟨ψ', nrm, sc, hrun, boundary_kept_compress C01.fullQR_kernel C13.exKernels_kernel C13.exAbs_contract
+    (by simp [RealLike.re]) (by simp) exψ_adm (by norm_num) (by norm_num) hrun hσ hamp⟩
+
 /-! ## Non-vacuity: a history from the empty pool over `ℂ`
 
 `MPS([0, 1], [[0], [0, 1], [1]], fill=1)`, `MPO.identity([0, 1], 2, 1)`, `MPO([0, 1], [[0], [0], [0]], fill=2)`, a copy, and
